@@ -472,3 +472,111 @@ class DotClassify(Kernel):
 
 KERNELS_C08.append(DotClassify())
 KERNELS = KERNELS_C14 + KERNELS_C15 + KERNELS_C08
+
+
+class ElementwiseOut(Kernel):
+    """region of elementwise.inner(): the output expression of the element-wise call (two operands)"""
+    id = "C01.P.elementwise_out"
+    prop = "C01"
+    file, module = F, M
+    qual = "elementwise/inner"
+    allowed_raises = ("AssertionError",)
+    describe = ("element-wise lowering, two operands already aligned to a common rank: the k-th output axis is a copy of an operand's k-th axis with the LARGEST length at that position "
+                "(the first operand on ties), so the expression handed to the output check is the broadcast of the operand expressions; AssertionError only if the operand ranks differ")
+
+    def region(self, fnode):
+        import ast
+        body = fnode.body
+        a = [i for i, st in enumerate(body) if isinstance(st, ast.Assign) and ast.unparse(st.targets[0]) == "in_axes"]
+        b = [i for i, st in enumerate(body) if isinstance(st, ast.Assign) and ast.unparse(st.targets[0]) == "expr_out"]
+        if len(a) != 1 or len(b) != 1 or b[0] < a[0]:
+            raise LookupError("anchors `in_axes = ...` / `expr_out = ...` not found in elementwise.inner")
+        return body[a[0] : b[0] + 1]
+
+    def setup(self, eng, bound=None):
+        self.n = [z3.Int("n_axes0"), z3.Int("n_axes1")]
+        self.A = [z3.Array("axes0", I, Obj), z3.Array("axes1", I, Obj)]
+        self.value = uf("attr_value", Obj, I)
+        eng.int_attrs = set(eng.int_attrs) | {"value"}
+        self.copy = uf("axis_deepcopy", Obj, Obj)
+        e0, e1 = z3.Const("expr0", Obj), z3.Const("expr1", Obj)
+
+        def c_nodes(e, p, av, kw):
+            ex = p.lookup("expr").t
+            i = 0 if z3.eq(ex, e0) else 1
+            p.pc.append(self.n[i] >= 0)
+            return SSeq(self.A[i], self.n[i], "obj", "list")
+
+        def c_argmax(e, p, av, kw):
+            v = av[0]
+            if not (isinstance(v, STup) and len(v.items) == 2):
+                raise OutOfSubset("np.argmax on something else than a 2-element list")
+            return SInt(z3.If(v.items[1].t > v.items[0].t, 1, 0))
+
+        def c_create(e, p, av, kw):
+            p.ghost["out_axes"] = e.as_seq(av[0], p, ek="obj")
+            return SObj(fresh("expr_out", Obj))
+
+        eng.contracts.update({"expr.nodes": SContract(c_nodes, "expr.nodes() (here: exactly the Axis nodes of an aligned operand expression)"), "np.argmax": SContract(c_argmax, "np.argmax (index of the first maximum)"),
+                              "stage3.List.create": SContract(c_create), "isinstance": SContract(lambda e, p, av, kw: SBool(True)),
+                              "out_axis_i.__deepcopy__": SContract(lambda e, p, av, kw: SObj(self.copy(p.lookup("out_axis_i").t)))})
+        eng.opaque_seq_kind = "obj"
+        eng.local_types = {"out_axes": ("list", "obj")}
+
+        def inv(e, p, it):
+            oa = e.as_seq(p.lookup("out_axes"), p, ek="obj")
+            t = fresh("t")
+            cp = uf("call_meth___deepcopy__[o,|]", Obj, Obj)
+            return z3.And(oa.n == it, z3.ForAll([t], z3.Implies(z3.And(0 <= t, t < it), z3.Select(oa.arr, t) == cp(self.pick(p, t)))))
+
+        eng.invariants[0] = inv
+        env = {"exprs_in": STup([SObj(e0), SObj(e1)], "list"), "stage3": SObj(z3.Const("stage3", Obj)), "np": SObj(z3.Const("np", Obj))}
+        return env, [], {}
+
+    def operands(self, p):
+        """the two lists of Axis nodes the code extracted (in_axes)"""
+        ia = p.lookup("in_axes")
+        return [q for q in ia.items]
+
+    def pick(self, p, t):
+        o0, o1 = self.operands(p)
+        a0, a1 = z3.Select(o0.arr, t), z3.Select(o1.arr, t)
+        return z3.If(self.value(a1) > self.value(a0), a1, a0)
+
+    def post(self, eng, out, p):
+        o0, o1 = self.operands(p)
+        if isinstance(out, Raise):
+            eng.oblige("post:AssertionError only if the aligned operands have different numbers of axes", p, o0.n != o1.n, "post")
+            return
+        oa = p.ghost.get("out_axes")
+        if oa is None:
+            eng.oblige("post:the output expression is built from the list of output axes", p, z3.BoolVal(False), "post")
+            return
+        t = fresh("t")
+        eng.oblige("post:normal exit only for operands with equally many axes", p, o0.n == o1.n, "post")
+        eng.oblige("post:one output axis per position", p, oa.n == o0.n, "post")
+        # the code appends `in_axes_i[idx].__deepcopy__()`: the engine names that copy through its generic method-call abstraction
+        cp = uf("call_meth___deepcopy__[o,|]", Obj, Obj)
+        eng.oblige("post:the k-th output axis is a copy of the operand axis with the largest length at position k (first operand on ties)", p,
+                   z3.ForAll([t], z3.Implies(z3.And(0 <= t, t < oa.n), z3.Select(oa.arr, t) == cp(self.pick(p, t)))), "post")
+
+    def twin(self, tier):
+        import numpy as np
+        import einx
+        n, fails = 0, []
+        for desc, s1, s2 in (("a b, a 1 -> a b", (2, 3), (2, 1)), ("1 b, a b -> a b", (1, 3), (2, 3)), ("a 1, 1 b -> a b", (2, 1), (1, 3)), ("a b c, c -> a b c", (2, 3, 4), (4,))):
+            n += 1
+            x, y = np.arange(int(np.prod(s1)), dtype=float).reshape(s1), np.arange(int(np.prod(s2)), dtype=float).reshape(s2)
+            try:
+                got = np.asarray(einx.add(desc, x, y, backend="numpy.numpylike"))
+            except Exception as e:  # noqa
+                fails.append({"detail": f"einx.add({desc!r}) raised {type(e).__name__}: {e}"})
+                continue
+            exp = x + y if x.ndim == y.ndim else x + y.reshape((1,) * (x.ndim - y.ndim) + y.shape)
+            if got.shape != exp.shape or not np.allclose(got, exp):
+                fails.append({"detail": f"einx.add({desc!r}) differs from numpy broadcasting"})
+        return n, fails[:3]
+
+
+KERNELS_C01 = [ElementwiseOut()]
+KERNELS = KERNELS_C14 + KERNELS_C15 + KERNELS_C08 + KERNELS_C01
